@@ -155,6 +155,12 @@ func buildJobs(thorough bool) []job {
 		}
 		jobs = append(jobs, job{Kind: "porcheck", Script: s, InjProv: -1})
 	}
+	// same cross-check on 3-provider scripts whose full enumeration is affordable
+	for _, s := range three {
+		if s.Name == "3C-all-three-remove" || (thorough && (s.Name == "3A-remove-vs-two-attaches" || s.Name == "3B-chain-attach-vs-two-removes")) {
+			jobs = append(jobs, job{Kind: "porcheck", Script: s, InjProv: -1})
+		}
+	}
 	// 3. real goroutine concurrency (race detector), same oracle
 	nfree := 40
 	if thorough {
@@ -172,7 +178,7 @@ func buildJobs(thorough bool) []job {
 		}
 	} else {
 		for _, s := range three {
-			for _, p := range prefixes(3, 3) {
+			for _, p := range prefixes(3, 5) {
 				jobs = append(jobs, job{Kind: "enum", Script: s, POR: true, Prefix: p, InjProv: -1, MaxExec: 60000})
 			}
 			for k := 0; k < 8; k++ {
